@@ -53,6 +53,21 @@ elif op == "slice":
         got = [c._conf_id for c in src[sl]]
         if got != list(range(n))[sl]:
             bad.append(f"ens[{sl}] on {n} conformers x {src.n_atoms} atoms gave conformers {got}")
+elif op == "view-after-growth":
+    for how in ("append", "extend"):
+        e = ml.ConformerEnsemble(src[0], n_conformers=2)
+        e.coords = src.coords[:2]
+        c = e[1]
+        (e.append(src[2]) if how == "append" else e.extend([src[2], src[3]]))
+        if not np.array_equal(c.coords, e.coords[1]) or not np.array_equal(c.atomic_charges, e.atomic_charges[1]):
+            bad.append(f"a conformer handle taken before {how} no longer shows the ensemble's row")
+        c.coords[0, 2] = 123.5
+        c.atomic_charges[1] = -0.75
+        if e.coords[1, 0, 2] != 123.5 or e.atomic_charges[1, 1] != -0.75:
+            bad.append(f"writes through a conformer handle taken before {how} do not reach the ensemble")
+        c.coords = np.full((e.n_atoms, 3), 7.0)
+        if not np.all(e.coords[1] == 7.0):
+            bad.append(f"assignment through a conformer handle taken before {how} does not reach the ensemble")
 elif op == "init":
     for e in (ml.ConformerEnsemble(list(src)[:2]), ml.ConformerEnsemble(src), ml.ConformerEnsemble(src[0]), ml.ConformerEnsemble(src[0], n_conformers=3)):
         bad += rect(e)
